@@ -30,6 +30,10 @@ CHECKS = {
          "For every enumerated byte sequence, every segmentation into recv() chunks, every listed bufsize and end condition, the socket run yields the same items as io.BytesIO, read(n) returns n bytes or nothing, readline() stops at the next LF, and the wrapper's output is a prefix of the input.",
          "state merging keyed on real buffer bytes + history hash (cross-checked unmerged on short streams); no real TCP / OS scheduling involved; end conditions only after the last byte.",
          "DESIGN.md §5 C10"),
+ "C02": ("bounded exhaustive exploration of the real parser over every routed definition x group-count vectors x one-field-at-a-time boundary values x variant discriminators/lengths x both bitfield views; oracle = independent reference layout walker + scalar codec",
+         "For every (mode, definition) the tables ship (all variants), every enumerated group count and boundary value, and both bitfield views, the parsed message exposes exactly the names the reference layout predicts, in order, each equal to the reference decoding of its bytes, and the identity is the message-ID table's name.",
+         "reference model in /verif/mc/refmodel/layout.py written from the README grammar; interior values of 4/8-byte fields and simultaneous extremes are not enumerated; scaled values accepted within 0.5e-12 (documented rounding).",
+         "DESIGN.md §5 C02"),
 }
 NOT_YET = "check not built yet in this round (planned: see DESIGN.md §5)"
 
